@@ -237,3 +237,22 @@ Definition slice_deref_vec (dims : nat) (s : option slice_v) (idx : list Z) : re
                                        | None => None
                                        end |}) idx
   end.
+
+(* ---- names of the bounds of a slice / range parameter ------------------------------------------
+   `func f(s[n0 .. n1, n2 .. n3] : int)`: the name at position dim_index of the bound list is
+   compiled to ID_DIM_SLICE (vm_execute_id_dim_slice):
+       if (dim % 2 == 0) value = 0;
+       else { from = range[dim - 1]; to = range[dim];
+              value = (to > from) ? to - from : from - to; }                 (int arithmetic)
+   i.e. the lower name of every dimension is 0 and the upper name is the last valid index of that
+   dimension of the slice, whatever part of the array it covers and whichever way it runs.
+   `func f(r[n0 .. n1, ..] : range)`: the name is compiled to VECREF_VEC_DEREF with index =
+   dim_index: the bound itself. *)
+Definition slice_dim_name (v : list Z) (dim : nat) : Z :=
+  if Nat.even dim then 0
+  else
+    let from := vec_get v (dim - 1) in
+    let to := vec_get v dim in
+    if from <? to then s32 (to - from) else s32 (from - to).
+
+Definition range_dim_name (v : list Z) (dim : nat) : Z := vec_get v dim.
